@@ -210,6 +210,9 @@ func c06Random(r *Rng) C06Case {
 		c.Body = `{"a":`
 	case 2:
 		c.Body = "plain text"
+	case 3:
+		// a JSON value followed by something else: not a JSON text (white space alone is fine)
+		c.Body += Pick(r, []string{" trailing", "{}", " 1", "]", "\n", " \t\n"})
 	}
 	return c
 }
